@@ -54,7 +54,8 @@ func runC16(c *Ctx) error {
 			}
 			return ""
 		}})
-	errs := genSynJobs(rng, nG-len(clean), "h", synFilter{class: func(k model.LRClass) bool { return k != model.ClassAcceptReduce }, withErrors: true, nonEmpty: true, actionMode: 1, flags: func(i int) []string { return []string{"-a"} }, simpleLex: true})
+	errs := genSynJobs(rng, nG-len(clean), "h", synFilter{class: func(k model.LRClass) bool { return k != model.ClassAcceptReduce }, withErrors: true, nonEmpty: true, actionMode: 1, flags: func(i int) []string { return []string{"-a"} }, simpleLex: true,
+		family: func(i int) string { return []string{"errdeep", "", "errorder", "", "errdeep", ""}[i%6] }})
 	jobs := append(clean, errs...)
 	inRng := rand.New(rand.NewSource(c.Seed*53 + 13))
 	var hists []*histRef
